@@ -78,3 +78,56 @@ Fixpoint walk_quirk_free (q : quirks) (g : list (bytes * dm)) (f : nat) (n : dm)
                    end) (children q n s)
       else true
   end.
+
+(* ------------------------------------------------------------------ the current tree (C07_walk_denotes_current_tree)
+   Since b8b93dd / 873f3b3 / 87fc183 only the shared depth counter is left. *)
+Definition current : quirks :=
+  {| q_union_dup := false; q_bare_edge_panic := false; q_exhausted_unwrap := false; q_shared_depth := true |}.
+
+(* step depths (number of explore clauses passed) of the edges that belong to the recursion whose sequence s is;
+   edges beneath a nested ExploreRecursive belong to that one *)
+Fixpoint edge_depths (d : nat) (s : sel) : list nat :=
+  match s with
+  | SEdge => [d]
+  | SAll nx | SIndex _ nx | SRange _ _ nx => edge_depths (S d) nx
+  | SFields fs => (fix go (l : list (bytes * sel)) : list nat :=
+                     match l with [] => [] | kv :: t => edge_depths (S d) (snd kv) ++ go t end) fs
+  | SUnion ms => (fix go (l : list sel) : list nat :=
+                    match l with [] => [] | m :: t => edge_depths d m ++ go t end) ms
+  | _ => []
+  end.
+
+(* all edges of the sequence sit at the same step depth: every iteration takes the same number of steps, so all
+   members of the current selector pass their edges together *)
+Definition uniform (sq : sel) : bool :=
+  match edge_depths 0 sq with [] => true | d :: r => forallb (Nat.eqb d) r end.
+
+(* The shared depth counter of ExploreRecursive cannot be observed: every recursion of the declaration has a live
+   sequence and either no depth limit or a sequence all of whose edges sit at the same step depth. *)
+Fixpoint nsd_rec (s : sel) : bool :=
+  match s with
+  | SAll nx | SIndex _ nx | SRange _ _ nx => nsd_rec nx
+  | SFields fs => (fix go (l : list (bytes * sel)) : bool :=
+                     match l with [] => true | kv :: t => nsd_rec (snd kv) && go t end) fs
+  | SUnion ms => (fix go (l : list sel) : bool :=
+                    match l with [] => true | m :: t => nsd_rec m && go t end) ms
+  | SRec sq _ lim _ =>
+      nsd_rec sq && live sq && match lim with None => true | Some _ => uniform sq end
+  | _ => true
+  end.
+
+(* no empty union anywhere (an empty union next to an edge is dropped by replaceRecursiveEdge, see
+   C07_refuted_empty_union_dropped) *)
+Fixpoint noempty (s : sel) : bool :=
+  match s with
+  | SUnion [] => false
+  | SUnion ms => (fix go (l : list sel) : bool :=
+                    match l with [] => true | m :: t => noempty m && go t end) ms
+  | SAll nx | SIndex _ nx | SRange _ _ nx => noempty nx
+  | SFields fs => (fix go (l : list (bytes * sel)) : bool :=
+                     match l with [] => true | kv :: t => noempty (snd kv) && go t end) fs
+  | SRec sq cur _ _ => noempty sq && noempty cur
+  | _ => true
+  end.
+
+Definition no_shared_depth (s : sel) : bool := noempty s && nsd_rec s.
